@@ -619,7 +619,39 @@ def gen_sequence(rng, maxlen=9):
             ops.append(("MS", nid, rng.random() < 0.93, rng.random() < 0.3))
         else:
             ops.append(("MH", nid, rng.random() < 0.9))
+        if rng.random() < 0.12:         # a custom command: SET SERVER ROLE changes the session's parser override
+            nid += 1
+            ops.append(cmd_role(nid, rng.choice(sorted(ROLES))) if rng.random() < 0.75 else cmd_other(nid, rng.choice(OTHER_CMDS)))
     return cfg, ops
+
+
+ROLES = {"RPrimary": "primary", "RReplica": "replica", "RAny": "any", "RAuto": "auto", "RDefault": "default"}
+OTHER_CMDS = ["SET PRIMARY READS TO 'on'", "SET PRIMARY READS TO off", "SET SHARD TO '0'", "SET SHARDING KEY TO '1'", "SHOW SERVER ROLE", "SHOW SHARD",
+              "SHOW PRIMARY READS"]
+MSG_CODE = {"MQ": "Q", "MP": "P", "MB": "B", "MD": "D", "ME": "E", "MC": "C", "MS": "S", "MH": "H", "MCmd": "Q"}
+
+
+def cmd_role(nid, role, tx=False):
+    """SET SERVER ROLE TO '<role>'; the one-server pool of the scenarios has no replica"""
+    return ("MCmd", nid, ("CRole", role, role != "RReplica"), True, tx)
+
+
+def cmd_other(nid, text, tx=False):
+    return ("MCmd", nid, ("COther", text), True, tx)
+
+
+def cmd_text(rng, m):
+    """the wire text of a custom command (CUSTOM_SQL_REGEXES: case-insensitive, single blanks, optional ; and outer blanks)"""
+    c = m[2]
+    t = ("SET SERVER ROLE TO '%s'" % ROLES[c[1]]) if c[0] == "CRole" else c[1]
+    r = rng.random() if rng else 1.0
+    if r < 0.3:
+        t = t.lower()
+    elif r < 0.5:
+        t = "".join(ch.upper() if i % 2 else ch.lower() for i, ch in enumerate(t))
+    if rng and rng.random() < 0.3:
+        t = " " + t + rng.choice([";", " ;", "  "])
+    return t
 
 
 def b2c(b):
@@ -644,6 +676,10 @@ def coq_msg(m):
         return "ME %d" % m[1]
     if k == "MS":
         return "MS %d %s %s" % (m[1], b2c(m[2]), b2c(m[3]))
+    if k == "MCmd":
+        c = m[2]
+        cmd = "(CRole %s %s)" % (c[1], b2c(c[2])) if isinstance(c, tuple) and c[0] == "CRole" else "COther"
+        return "MCmd %d %s %s %s" % (m[1], cmd, b2c(m[3]), b2c(m[4]))
     return "MH %d %s" % (m[1], b2c(m[2]))
 
 
@@ -659,6 +695,8 @@ def ev_json(e):
         return {"ev": "release"}
     if e == "EvEnd":
         return {"ev": "end"}
+    if e == "EvCmd":
+        return {"ev": "command"}
     if e[0] == "EvIntercept":
         return {"ev": "intercept", "t": e[1]}
     if e[0] == "EvErr":
@@ -667,7 +705,7 @@ def ev_json(e):
     items = []
     for it in e[1]:
         m = it[1]
-        items.append({"k": "client" if it[0] == "FMsg" else "pgcat_parse", "code": m[0][1], "id": m[1]})
+        items.append({"k": "client" if it[0] == "FMsg" else "pgcat_parse", "code": MSG_CODE[m[0]], "id": m[1]})
     return {"ev": "forward", "items": items}
 
 
@@ -703,6 +741,8 @@ def wire_script(cfg, ops):
             msgs.append({"code": "E", "id": m[1]})
         elif k == "MS":
             msgs.append({"code": "S", "id": m[1], "pool_ok": m[2], "tx_after": m[3]})
+        elif k == "MCmd":
+            msgs.append({"code": "Q", "id": m[1], "sql": cmd_text(None, m), "custom_command": True})
         else:
             msgs.append({"code": "H", "id": m[1], "pool_ok": m[2]})
     pool = {"query_parser_enabled": cfg["parser_on"], "prepared_statements_cache_size": 500 if cfg["ps_on"] else 0,
@@ -805,6 +845,7 @@ Definition norm_msg (keep : list nat) (s : state) (m : msg) : msg :=
   match m with
   | MS i p _ => if existsb (Nat.eqb i) keep then m else MS i p (cur_tx s)
   | MQ i parsed v p tx => if parsed && is_allow v then m else MQ i parsed v p (cur_tx s)
+  | MCmd i cmd p tx => MCmd i cmd p (cur_tx s)
   | _ => m
   end.
 Fixpoint wrun (keep : list nat) (c : cfg) (s : state) (ops : list msg) : list (msg * bool * bool * list event) :=
@@ -826,6 +867,50 @@ def followers(nid, in_txn, order, name=0):
     batch = [("MP", nid, name, nid, True, ("Allow",)), ("MB", nid + 1, name), ("ME", nid + 2), ("MS", nid + 3, True, in_txn)]
     q = [("MQ", nid + 4, True, ("Allow",), True, in_txn)]
     return (batch + q) if order == 0 else (q + batch)
+
+
+def command_sequences():
+    """every SET SERVER ROLE value, SET PRIMARY READS and SET SHARD at every position relative to a denied / intercepted
+    statement (simple and extended; before it, inside the batch, after it), outside a transaction (the command is executed
+    by pgcat and changes the session's parser override), inside one (the text is an ordinary query there) and with the pool's
+    parser off and inherited plugins ('auto' switches the session's parser - and with it the plugins - on); followers, then
+    SET SERVER ROLE TO 'default' and followers again."""
+    out = []
+    cmds = [("role", r) for r in sorted(ROLES)] + [("other", "SET PRIMARY READS TO 'on'"), ("other", "SET SHARD TO '0'")]
+    for ctx in ("outer", "txn_q", "parser_off"):
+        for kind, arg in cmds:
+            for vk in ("Deny", "Intercept"):
+                for form, positions in (("Q", ("before", "after")), ("batch", ("before", "inside", "after"))):
+                    for pos in positions:
+                        cfg = {"parser_on": ctx != "parser_off", "plugins_on": True, "ps_on": False, "txn_mode": True}
+                        ops, nid, in_txn = [], 1, False
+                        if ctx == "txn_q":
+                            ops.append(("MQ", nid, True, ("Allow",), True, True)); nid += 1; in_txn = True
+
+                        def command():
+                            return cmd_role(nid, arg, in_txn) if kind == "role" else cmd_other(nid, arg, in_txn)
+                        if pos == "before":
+                            ops.append(command()); nid += 1
+                        if form == "Q":
+                            ops.append(("MQ", nid, True, (vk, nid), True, in_txn)); nid += 1
+                        else:
+                            v = (vk, nid)
+                            ops += [("MP", nid, 0, nid, True, v), ("MB", nid + 1, 0), ("ME", nid + 2)]; nid += 3
+                            if pos == "inside":
+                                ops.append(command()); nid += 1
+                            ops.append(("MS", nid, True, in_txn)); nid += 1
+                        if pos == "after":
+                            ops.append(command()); nid += 1
+                        # the same rejected statement again, now behind the command, then allowed followers
+                        ops.append(("MQ", nid, True, (vk, nid), True, in_txn)); nid += 1
+                        ops += followers(nid, in_txn, 0); nid += 5
+                        ops.append(cmd_role(nid, "RDefault", in_txn)); nid += 1
+                        ops.append(("MQ", nid, True, (vk, nid), True, in_txn)); nid += 1
+                        ops += followers(nid, in_txn, 1); nid += 5
+                        if in_txn:
+                            ops.append(("MQ", nid, True, ("Allow",), True, False)); nid += 1
+                        out.append((cfg, ops, {}))
+    return out
 
 
 def product_sequences():
@@ -891,12 +976,23 @@ def gen_wire_sequence(rng, maxlen=9):
             m = ("MH", m[1], True)
         out.append(m)
     if cfg["ps_on"]:
+        # (the mock backend answers a custom command's text with a syntax error; see below: no commands where they could
+        #  reach the server inside a transaction)
+        keep, maybe_txn = [], False
+        for m in out:
+            if m[0] == "MQ" and m[2] and m[3] == ("Allow",):
+                maybe_txn = m[5]
+            if m[0] == "MCmd" and maybe_txn:
+                continue
+            keep.append(m)
+        out = keep
+    if cfg["ps_on"]:
         # With caching on, an ErrorResponse from the server makes Server::recv drop the statement it is registering from
         # its cache (C08's subject, not modelled here): keep the server error-free - no Execute / Describe-portal without
         # a Bind since the last Sync / Query.
         keep, bound = [], False
         for m in out:
-            if m[0] in ("MS", "MQ"):
+            if m[0] in ("MS", "MQ", "MCmd"):
                 bound = False
             elif m[0] == "MB":
                 bound = True
@@ -913,6 +1009,18 @@ def gen_wire_sequence(rng, maxlen=9):
         if m[0] == "MS" and rng.random() < 0.25:
             begin = rng.random() < 0.6
             o, t, k = ext_txn(nid, begin); res += o; texts.update(t); keepids.append(k); nid += 4
+    if cfg["ps_on"]:        # extended BEGIN batches may leave a transaction open: no command behind them
+        seen_begin = False
+        res2 = []
+        for m in res:
+            seen_begin = seen_begin or (m[0] == "MS" and m[1] in keepids and m[3])
+            if m[0] == "MCmd" and seen_begin:
+                continue
+            res2.append(m)
+        res = res2
+    for m in res:
+        if m[0] == "MCmd":
+            texts[("cmd", m[1])] = cmd_text(rng, m)
     res += followers(nid, rng.random() < 0.3, rng.randint(0, 1))
     return cfg, res, {"texts": texts, "keep": keepids}
 
@@ -941,6 +1049,8 @@ def base_texts(ops, overrides):
             t[("Q", m[1])] = wire_text(m[1], m[2], m[3])
         elif m[0] == "MP":
             t[("P", m[3])] = (overrides or {}).get(m[3]) or wire_text(m[3], m[4], m[5])
+        elif m[0] == "MCmd":
+            t[("Q", m[1])] = (overrides or {}).get(("cmd", m[1])) or cmd_text(None, m)
     return t
 
 
@@ -1030,6 +1140,8 @@ def build_wire_scenario(cfg, rows, prep):
             text_of[("Q", m[1])] = t
         elif m[0] == "MP":
             text_of[("P", m[1])] = base[("P", m[3])]               # keyed by statement identity
+        elif m[0] == "MCmd":
+            text_of[("Q", m[1])] = base[("Q", m[1])]
     two = prep["mode"].startswith("two_pools")
     pools = {"db": {"opts": {"query_parser_enabled": cfg["parser_on"], "prepared_statements_cache_size": 500 if cfg["ps_on"] else 0,
                              "pool_mode": "transaction" if cfg["txn_mode"] else "session"},
@@ -1046,7 +1158,7 @@ def build_wire_scenario(cfg, rows, prep):
     ended = False
     for m, held, cur, evs in rows:
         k = m[0]
-        if k == "MQ":
+        if k in ("MQ", "MCmd"):
             wm = {"t": "Q", "sql": text_of[("Q", m[1])]}
         elif k == "MP":
             wm = {"t": "P", "name": nm(m[2]), "sql": text_of[("P", m[1])], "types": []}
@@ -1060,7 +1172,7 @@ def build_wire_scenario(cfg, rows, prep):
             wm = {"t": "S"}
         else:
             wm = {"t": "H"}
-        block = (k in ("MQ", "MS", "MH")) and not held and not pool_ok(m)
+        block = (k in ("MQ", "MS", "MH", "MCmd")) and not held and not pool_ok(m)
         if block:       # exhaust the pool: a fresh client takes the only server into a transaction (and leaves afterwards:
                         # in session mode it would keep the server for good)
             nhold += 1
@@ -1075,12 +1187,14 @@ def build_wire_scenario(cfg, rows, prep):
                 group = ("plugin_error", j["t"]) if j["kind"] == "plugin" else (j["kind"] + "_error",)
             elif j["ev"] == "intercept":
                 group = ("intercept", j["t"])
+            elif j["ev"] == "command":
+                group = ("other",)          # CommandComplete / a row from pgcat itself, nothing forwarded
             elif j["ev"] == "end":
                 ended = True
             elif j["ev"] == "forward":
                 for it in e[1]:
                     fm = it[1]
-                    code = fm[0][1]
+                    code = MSG_CODE[fm[0]]
                     if it[0] == "FParse":
                         exp_backend += [("P", text_of[("P", fm[1])]), ("S",)]
                     elif code in ("Q", "P"):
@@ -1122,7 +1236,7 @@ def build_wire_scenario(cfg, rows, prep):
 
 
 def pool_ok(m):
-    return m[4] if m[0] == "MQ" else (m[2] if m[0] in ("MS", "MH") else True)
+    return m[4] if m[0] == "MQ" else (m[3] if m[0] == "MCmd" else (m[2] if m[0] in ("MS", "MH") else True))
 
 
 def observe_wire(res, texts, client="a"):
@@ -1206,7 +1320,7 @@ def check_wire(run, n, st):
         run.violation("tie-broken", "wire harness does not build", {"correspondence": "wire harness build", "log": blog[-2000:]}, found_input=False)
         return 0
     from props import wirelib as W
-    prod = product_sequences()
+    prod = product_sequences() + command_sequences()
     st["wire_product"] = len(prod)
     seqs = prepare_wire([(dict(c), list(o), {}) for c, o in FIXED] + prod + [gen_wire_sequence(run.rng) for _ in range(n)])
     exprs = ["wrun [%s] %s init [%s]" % ("; ".join(str(k) for k in x.get("keep", [])), coq_cfg(c), "; ".join(coq_msg(m) for m in ops)) for c, ops, x, p in seqs]
